@@ -35,7 +35,7 @@ CFG = {
     "ext": True,
     # the enumeration also starts from the programs in which a cells' VALUE depends on the NAME of its space (all
     # cached / the name-reading cells uncached), and renames every space that holds cells after every motif program
-    "enum_motifs": S.MOTIFS_NAME + S.MOTIFS_NAME_REF, "space_renames": True,
+    "enum_motifs": S.MOTIFS_NAME, "space_renames": True,
 }
 
 RULE = ("random interleavings (14-30 ops) of edits (value assignment/clearing; references created, changed, shadowed, "
@@ -342,7 +342,10 @@ def run(ctx, out):
     sub = core.Outcome()
     xstats = X.run_family(ctx, sub, XCFG, xoracle, 70, 1500, corpus_name="C02exec", structured=scenario_cases(ctx))
     S.merge(out, sub)
-    S.run_struct(ctx, out, "C02", CFG, H, 60, 1200, RULE, ops_range=(14, 30))
+    # thorough tier: also the program whose formulas read the NAME of another space through a reference (known finding
+    # C02-space-name-read-through-reference; the quick tier has its two corpus witnesses - the check is at its time limit)
+    cfg = dict(CFG, enum_motifs=S.MOTIFS_NAME + S.MOTIFS_NAME_REF) if ctx.tier == "thorough" else CFG
+    S.run_struct(ctx, out, "C02", cfg, H, 60, 1200, RULE, ops_range=(14, 30))
     # histories inside the vocabulary of the combined machine (Edit/Machine.lean): compared to the end
     out.coverage["combined_machine"] = dict(editworld.run_family(ctx, out))
     out.coverage["value_layer_mechanism"] = sub.coverage
